@@ -4,6 +4,7 @@
    Model.Binary.ty, and compared inside Coq with the structural type the schema prescribes (Model.Schema.wire). *)
 From Coq Require Import List NArith ZArith Bool.
 From YV Require Import Base.Wire Model.Binary Gen.Tables Model.Json Model.Schema Model.SchemaCases Model.PlanCases Proofs.PlanProofs.
+From YV Require Import Model.CppLayout Proofs.CppLayoutProofs.
 Import ListNotations.
 Open Scope N_scope.
 
@@ -38,3 +39,39 @@ Theorem C14_example :
          (TRec [TEnum PUint16; TUnion true [TVec (TPrim PInt8); TPrim PString]]) = true.
 Proof. reflexivity. Qed.
 Print Assumptions C14_example.
+
+(* The C++ memcpy fast path follows the plan: whenever IsTriviallySerializable holds for the C++ type of a resolved type
+   (leaf and array specializations of serializers.h, generated record specializations), the sizeof(T) bytes memcpy copies
+   are exactly the field-by-field encoding the schema prescribes, for every well-typed value: no padding byte, no member
+   out of order, nothing that occupies storage without being part of the stream. *)
+Theorem C14_memcpy_fast_path_sound :
+  forall t v, ts true t = true -> has_type t v = true -> img t v = map Some (enc t v).
+Proof. exact ts_sound. Qed.
+Print Assumptions C14_memcpy_fast_path_sound.
+
+Theorem C14_memcpy_size : forall t v, ts true t = true -> has_type t v = true ->
+  exists s a, layout t = Some (s, a) /\ N.of_nat (length (enc t v)) = s.
+Proof. exact ts_size. Qed.
+Print Assumptions C14_memcpy_size.
+
+(* without the element-count guard of the array specializations (the header before /repo commit 7b8854d) the statement is
+   false: record {a: uint8*0, b: uint8} is trivially serializable and its object has one byte more than its encoding *)
+Theorem C14_unguarded_trait_refuted :
+  exists t v, ts false t = true /\ has_type t v = true /\ img t v <> map Some (enc t v).
+Proof. exact ts_unguarded_refuted. Qed.
+Print Assumptions C14_unguarded_trait_refuted.
+
+(* independent of the ABI: members in declaration order, not overlapping, inside the object, and sizeof = sum of the member
+   sizes (what the generated specialization tests) leave no room for padding *)
+Theorem C14_no_padding_any_abi : forall offs sizes o total,
+  ordered_from o offs sizes total -> total <= o + sumN sizes -> packed_from o offs sizes.
+Proof. exact no_padding_any_abi. Qed.
+Print Assumptions C14_no_padding_any_abi.
+
+(* non-vacuity: packed records are trivially serializable, padded ones are not *)
+Example C14_trait_examples :
+  ts true (TRec [TPrim PFloat32; TPrim PFloat32]) = true /\
+  ts true (TRec [TFixVec 3 (TPrim PUint8); TRec [TPrim PInt8; TPrim PBool]; TFixArr [2; 2] (TPrim PInt8)]) = true /\
+  ts true (TRec [TPrim PInt8; TPrim PFloat32]) = false /\
+  ts true (TRec [TFixVec 0 (TPrim PUint8); TPrim PUint8]) = false.
+Proof. vm_compute. repeat split. Qed.
